@@ -72,6 +72,15 @@ theorem tie_newResourceManager : newResourceManagerShape =
     ["return &ResourceManager{ resources: make(map[string]io.Closer), singleFlight: NewSingleFlight(), }"] := by
   decide
 
+/-! ### the synchronisation objects are the ones the rows' semantics were written for
+(`sync.Mutex`: exclusive; `sync.WaitGroup`: counter, `Wait` passes iff 0; `sync.RWMutex`: one writer or many readers;
+the maps are keyed by the caller's key string) -/
+theorem tie_callFields : callFields = ["wg sync.WaitGroup", "val any", "err error"] := by decide
+theorem tie_flightGroupFields : flightGroupFields = ["calls map[string]*call", "lock sync.Mutex"] := by decide
+theorem tie_lockedGroupFields : lockedGroupFields = ["mu sync.Mutex", "m map[string]*sync.WaitGroup"] := by decide
+theorem tie_resourceManagerFields : resourceManagerFields =
+    ["resources map[string]io.Closer", "singleFlight SingleFlight", "lock sync.RWMutex"] := by decide
+
 /-! ### the users named in the property's anchors
 `cacheNode.doTake` and `collection.Cache.Take` put exactly one `SingleFlight` call around the load, keyed by the
 cache key itself (so "one execution per key" is "one load per cache key"). -/
